@@ -407,12 +407,12 @@ Proof. exact pipeline_tree_walk_nonvacuous. Qed.
 (* ======================================================================== *)
 (* A savefile line is  address SP printed-values NL  - the text rtosc_print_message makes
    (C10's print_message) and a line feed.  With range compression on (the default options)
-   and values in C10's goodc fragment, the checker and the scanner read the message back
+   and values in C10's goodc0 fragment, the checker and the scanner read the message back
    ALSO WHEN MORE TEXT FOLLOWS the line feed - nothing, or the next message: the scanner
    stops in front of the next '/' (C10's own theorems are about a text that ends with the
    message).  The slots do not depend on what follows. *)
 Theorem C12_message_reads_tl : forall (dec2f dec2d : list Z -> Z) o addr vs text w,
-  PrintModel.compress o = true -> RunProofs.good_addr addr -> Forall ListProofs.goodc vs ->
+  PrintModel.compress o = true -> RunProofs.good_addr addr -> Forall ListProofs.goodc0 vs ->
   Z.of_nat (length vs) < 2 ^ 31 ->
   PrintModel.print_message o addr vs 0 = Some (text, w) ->
   exists slots,
